@@ -441,7 +441,7 @@ func Run(r *fw.Run) {
 	fw.Explore(r, "S-anp-pods", fw.Full, scopeANP, func(w *wm.World, x *fw.Rec) { evalWorld(w, x, mirror) })
 	for _, sc := range c01.Scopes(true) {
 		sc := sc
-		if r.Quick() && sc.Name != "S-ports" && sc.Name != "S-rules" {
+		if r.Quick() && sc.Name != "S-ports" && sc.Name != "S-rules" && sc.Name != "S-same-cidr" && sc.Name != "S-twins" {
 			continue
 		}
 		fw.Explore(r, "C01/"+sc.Name, sc.Mode, func(c *fw.Ctx) *wm.World { return ToPods(sc.Gen(c)) }, func(w *wm.World, x *fw.Rec) { evalWorld(w, x, mirror) })
